@@ -401,7 +401,15 @@ Definition fresh_id : M positive :=
   fun s => (Ok (next_id s),
             {| store := store s; next_id := Pos.succ (next_id s); log := log s;
                steps := steps s; fail_at := fail_at s; htabs := htabs s;
-               flags := flags s; files := files s; nfiles := nfiles s |}).
+               flags := flags s; files := files s; nfiles := nfiles s; mlog := mlog s |}).
+
+(* ghost: remember that a defmacro pushed a permanent entry on this symbol *)
+Definition note_defmacro (x : sx) : M unit :=
+  fun s => (Ok tt,
+            {| store := store s; next_id := next_id s; log := log s;
+               steps := steps s; fail_at := fail_at s; htabs := htabs s;
+               flags := flags s; files := files s; nfiles := nfiles s;
+               mlog := match key_of x with Some k => k :: mlog s | None => mlog s end |}).
 
 (* ------------------------------------------------------------------ *)
 (* DefunParams                                                         *)
@@ -906,7 +914,7 @@ Definition ht_store (h : positive) (l : list (sx * sx)) : M unit :=
   fun s => (Ok tt,
             {| store := store s; next_id := next_id s; log := log s; steps := steps s;
                fail_at := fail_at s; htabs := PositiveMap.add h l (htabs s);
-               flags := flags s; files := files s; nfiles := nfiles s |}).
+               flags := flags s; files := files s; nfiles := nfiles s; mlog := mlog s |}).
 
 (* ---- assoc --------------------------------------------------------- *)
 Fixpoint assoc_find (test : sx -> M bool) (alist : sx) : M sx :=
@@ -1098,7 +1106,7 @@ Definition set_flags (n : text) : M unit :=
                   nil_interned := nil_interned fl || text_eqb n name_nil |} in
     (Ok tt, {| store := store s; next_id := next_id s; log := log s; steps := steps s;
                fail_at := fail_at s; htabs := htabs s; flags := fl';
-               files := files s; nfiles := nfiles s |}).
+               files := files s; nfiles := nfiles s; mlog := mlog s |}).
 
 Definition do_tick (id : sx) (v : sx) : M sx :=
   fun s =>
@@ -1107,7 +1115,7 @@ Definition do_tick (id : sx) (v : sx) : M sx :=
     let s' := {| store := store s; next_id := next_id s;
                  log := (idz, print F v) :: log s; steps := n;
                  fail_at := fail_at s; htabs := htabs s; flags := flags s;
-                 files := files s; nfiles := nfiles s |} in
+                 files := files s; nfiles := nfiles s; mlog := mlog s |} in
     match fail_at s with
     | Some k => if N.eqb k n then (Err EHost, s') else (Ok v, s')
     | None => (Ok v, s')
@@ -1142,7 +1150,7 @@ Definition find_file (name : text) : M text :=
                         {| store := store s; next_id := next_id s; log := log s;
                            steps := steps s; fail_at := fail_at s; htabs := htabs s;
                            flags := flags s; files := files s;
-                           nfiles := N.succ (nfiles s) |})
+                           nfiles := N.succ (nfiles s); mlog := mlog s |})
            | None => (Err EUndef, s)
            end.
 
@@ -1411,6 +1419,7 @@ Definition apply_prim (p : prim) (args : sx) : M sx :=
       body <- lift (fn_body rest) ;;
       _ <- lift (parse_params params) ;;
       _ <- sym_set_scope name (Mac params body) ;;
+      _ <- note_defmacro name ;;
       ret Nil
   | PFuncall =>
       '(name, rest) <- arg_req false args ;;
